@@ -11,6 +11,8 @@ from __future__ import annotations
 
 import logging
 
+import random
+
 from vf import bindcase as bc
 from vf import ir
 from vf.xmlkit import deep_eq
@@ -131,6 +133,9 @@ def run_case(ctx, case, cfgs_per_obj=1):
 
 
 def replay(witness, ctx):
+    if witness.get("fn") == "union-models":
+        check_union_models(ctx)
+        return
     install_hooks(ctx)
     if witness.get("fn") == "noop":
         return
@@ -156,10 +161,42 @@ def run_probes(ctx, prefix):
             ctx.inconc(f"probe {key} failed to run: {type(e).__name__}: {e}")
 
 
+def check_union_models(ctx):
+    """Hand-written models with unions of classes (vf/props/union_models.py): render with both writers, parse strictly with
+    both handlers, compare."""
+    from xsdata.formats.dataclass.context import XmlContext
+    from xsdata.formats.dataclass.parsers import XmlParser
+    from xsdata.formats.dataclass.parsers.config import ParserConfig
+    from xsdata.formats.dataclass.serializers import XmlSerializer
+    from xsdata.formats.dataclass.serializers.config import SerializerConfig
+
+    from vf.props import union_models as U
+
+    rng = random.Random(ctx.seed)
+    for i, obj in enumerate(U.instances(rng)):
+        for writer in bc.WRITERS:
+            for handler in bc.HANDLERS:
+                ctx.case("union-models", repr(obj), writer, handler, nontrivial=True)
+                ctx.evals()
+                ctx.feature("hand:union-of-classes")
+                w = {"fn": "union-models", "index": i, "writer": writer, "handler": handler}
+                try:
+                    xml = XmlSerializer(context=XmlContext(), writer=bc.writer_cls(writer), config=SerializerConfig(indent=rng.choice([None, "  "]))).render(obj, ns_map=rng.choice([None, {None: U.NS}, {"h": U.NS}]))
+                    pc = ParserConfig(fail_on_unknown_properties=True, fail_on_unknown_attributes=True, fail_on_converter_warnings=True)
+                    back = XmlParser(context=XmlContext(), handler=bc.handler_cls(handler), config=pc).from_string(xml, U.Holder)
+                except Exception as e:  # noqa: BLE001
+                    ctx.violation(f"union-models/raises/{writer}/{handler}/{bc.short_exc(e)}", f"{type(e).__name__}: {e}\n{obj!r}\n{locals().get('xml', '')[:1200]}", w)
+                    continue
+                d = deep_eq(obj, back)
+                if d:
+                    ctx.violation(f"union-models/roundtrip-mismatch/{writer}/{handler}", f"{d}\n{obj!r}\n{xml[:1200]}", w)
+
+
 def run_shard(ctx):
     install_hooks(ctx)
     if ctx.shard == 0:
         run_probes(ctx, "C01/")
+        check_union_models(ctx)
     n_models = ctx.per_shard(ctx.pick(7000, 160000))
     min_d = MIN_DISTINCT[ctx.tier] // ctx.nshards + 1
     k = 0
